@@ -33,19 +33,41 @@ package tcp
 //@
 //@ // ---- C12 (and C10: the hello handed to the parser was read completely) ---------------------------
 //@ func (*Proxy).ServeTCP
-//@   props C12
-//@   requires p != nil && in != nil && !accessAdmitted
+//@   props C12 C09
+//@   requires p != nil && in != nil && !accessAdmitted && connRemote(in) != nil && connLocal(in) != nil && wrapperOf[in] == nil
 //@   assigns *
+//@   // the connections are closed (deferred) only after every tunnel direction that was started has been awaited
+//@   ensures [both-directions-awaited] @C09 chanRecvs - old(chanRecvs) == goSpawns - old(goSpawns)
 //@
 //@ func (*SNIProxy).ServeTCP
-//@   props C12 C10
-//@   requires p != nil && in != nil && !accessAdmitted
+//@   props C12 C10 C09
+//@   requires p != nil && in != nil && !accessAdmitted && connRemote(in) != nil && connLocal(in) != nil && wrapperOf[in] == nil
+//@   assigns *
+//@   ensures [both-directions-awaited] @C09 chanRecvs - old(chanRecvs) == goSpawns - old(goSpawns)
+//@
+//@ // a tunnel direction must read from the reader that holds everything consumed from the connection so far: if a
+//@ // buffered reader was put over src and has read from it, bytes may sit in its buffer and reading src directly skips them
+//@ func (*Proxy).ServeTCP$1
+//@   props C09
+//@   requires src != nil && dst != nil
+//@   requires wrapperOf[src] == nil || !mayHold[wrapperOf[src]]
+//@   assigns *
+//@ func (*SNIProxy).ServeTCP$1
+//@   props C09
+//@   requires src != nil && dst != nil
+//@   requires wrapperOf[src] == nil || !mayHold[wrapperOf[src]]
+//@   assigns *
+//@ func (*DynamicProxy).ServeTCP$1
+//@   props C09
+//@   requires src != nil && dst != nil
+//@   requires wrapperOf[src] == nil || !mayHold[wrapperOf[src]]
 //@   assigns *
 //@
 //@ func (*DynamicProxy).ServeTCP
-//@   props C12
-//@   requires p != nil && in != nil && !accessAdmitted
+//@   props C12 C09
+//@   requires p != nil && in != nil && !accessAdmitted && connRemote(in) != nil && connLocal(in) != nil && wrapperOf[in] == nil
 //@   assigns *
+//@   ensures [both-directions-awaited] @C09 chanRecvs - old(chanRecvs) == goSpawns - old(goSpawns)
 //@
 //@ // ---- C09: transparent byte streams ---------------------------------------------------------------
 //@ spec fun tail(s string, n int) string = s[n:]
@@ -63,7 +85,14 @@ package tcp
 //@   loop 1 invariant tail(wr[dst], len(old(wr[dst]))) == tail(rd[src], len(old(rd[src])))
 //@   loop 1 invariant len(buf) == 32768
 //@
+//@ // the PROXY protocol v1 line for a client connection
+//@ spec fun proxyLine(in net.Conn) string = "PROXY " + (ipTo4(parseIP(splitHost(addrString(connRemote(in))))) != nil ? "TCP4" : "TCP6") + " " + splitHost(addrString(connRemote(in))) + " " + splitHost(addrString(connLocal(in))) + " " + splitPort(addrString(connRemote(in))) + " " + splitPort(addrString(connLocal(in))) + "\r\n"
+//@
 //@ func WriteProxyHeader
 //@   props C09
-//@   requires out != nil && in != nil
-//@   assigns *
+//@   requires out != nil && in != nil && connRemote(in) != nil && connLocal(in) != nil
+//@   assigns wr
+//@   ensures nopanic
+//@   // nothing is consumed from the client; the upstream receives the PROXY line and nothing else
+//@   ensures result == nil ==> wr[connWriter(out)] == old(wr[connWriter(out)]) + proxyLine(in)
+//@   ensures forall w io.Writer :: w != connWriter(out) ==> wr[w] == old(wr[w])
